@@ -614,12 +614,17 @@ class DoctestParser:
         if 1:
             # Get PS1 line numbers of statements accounting for decorators
             ps1_linenos = []
+            prev_end = -1
             for node in statement_nodes:
                 if hasattr(node, 'decorator_list') and node.decorator_list:
                     lineno = node.decorator_list[0].lineno - 1
                 else:
                     lineno = node.lineno - 1
-                ps1_linenos.append(lineno)
+                if lineno > prev_end:
+                    # (a statement behind a semicolon on the closing line of
+                    # a multi-line statement does not start a line)
+                    ps1_linenos.append(lineno)
+                prev_end = max(prev_end, getattr(node, 'end_lineno', node.lineno) - 1)
 
         # Respect any line explicitly defined as PS2 (via its prefix)
         ps2_linenos = {
